@@ -1,6 +1,6 @@
 """C16 — hierarchical state machine conforms to its reference semantics (tbox::flow::StateMachine)."""
 ID = 'C16'
-LEAN_MODULES = ['TboxModel.C16.Props']
+LEAN_MODULES = ['TboxModel.C16.Props', 'TboxModel.C16.PropsDef', 'TboxModel.C16.PropsArena']
 EXE = 'c16'
 THEOREMS = ['Tbox.C16.C16_conforms', 'Tbox.C16.C16_conforms_fresh', 'Tbox.C16.C16_first_match',
             'Tbox.C16.C16_order_once', 'Tbox.C16.C16_balanced', 'Tbox.C16.C16_balanced_after_stop',
@@ -8,21 +8,37 @@ THEOREMS = ['Tbox.C16.C16_conforms', 'Tbox.C16.C16_conforms_fresh', 'Tbox.C16.C1
             'Tbox.C16.C16_reentrancy_counterexample_unpatched', 'Tbox.C16.C16_guard_eval_order',
             'Tbox.C16.C16_arena_balanced', 'Tbox.C16.C16_arena_balanced_after_stop', 'Tbox.C16.C16_arena_reentrancy_rejected',
             'Tbox.C16.C16_arena_frame', 'Tbox.C16.C16_arena_shared_sub_stranded', 'Tbox.C16.C16_arena_first_match', 'Tbox.C16.C16_arena_guard_eval_order',
-            'Tbox.C16.C16_arena_fuel_suffices', 'Tbox.C16.C16_arena_prog_fuel_suffices', 'Tbox.C16.C16_arena_order_once', 'Tbox.C16.C16_arena_order_once_prog', 'Tbox.C16.C16_arena_no_null_deref']
+            'Tbox.C16.C16_arena_fuel_suffices', 'Tbox.C16.C16_arena_prog_fuel_suffices', 'Tbox.C16.C16_arena_order_once', 'Tbox.C16.C16_arena_order_once_prog', 'Tbox.C16.C16_arena_no_null_deref',
+            # round 3: handler-return convention (patches/C16-03)
+            'Tbox.C16.C16_handler_negative_falls_through', 'Tbox.C16.C16_handler_negative_counterexample_unpatched',
+            # round 3: definition calls issued from callbacks (dCall / dProg, every table of definition calls)
+            'Tbox.C16.C16_def_refused_while_running', 'Tbox.C16.C16_def_keeps_runtime', 'Tbox.C16.C16_def_init_and_cb_not_refused',
+            'Tbox.C16.C16_def_arena_balanced', 'Tbox.C16.C16_def_arena_balanced_after_stop', 'Tbox.C16.C16_def_arena_reentrancy_rejected',
+            'Tbox.C16.C16_def_scan_table_stable', 'Tbox.C16.C16_def_scan_table_stable_script', 'Tbox.C16.C16_def_scan_table_stable_scan',
+            'Tbox.C16.C16_def_arena_frame', 'Tbox.C16.C16_def_arena_fuel_suffices', 'Tbox.C16.C16_def_arena_prog_fuel_suffices',
+            'Tbox.C16.C16_def_arena_no_null_deref', 'Tbox.C16.C16_def_arena_order_once', 'Tbox.C16.C16_def_arena_order_once_prog',
+            'Tbox.C16.C16_def_arena_guard_eval_order',
+            # round 3: the arena model refines the tree model and the reference semantics on hierarchical stores (closes the OPEN)
+            'Tbox.C16.C16_arena_refines_tree', 'Tbox.C16.C16_arena_refines_tree_fresh', 'Tbox.C16.C16_arena_conforms',
+            'Tbox.C16.C16_arena_conforms_fresh', 'Tbox.C16.C16_arena_conforms_counterexample_shared']
 import vlib
 SOURCES = ['modules/flow/state_machine.cpp'] + vlib.BASE_SOURCES
 FLAVOUR = 'asan'
 BATCH = 300
 MAX_REPORT = 3
 SHRINK_TESTS = 80
-TRUSTED = ['two hand-written models of modules/flow/state_machine.cpp (with patches/C16-01 and C16-02), both tied to the C++ by differential runs: '
+TRUSTED = ['two hand-written models of modules/flow/state_machine.cpp (with patches/C16-01, C16-02 and C16-03), both tied to the C++ by differential runs: '
            'the TREE model lean/TboxModel/C16/Model.lean (what the theorems are about: callbacks observe/call their own machine and any ancestor) and '
            'the ARENA model lean/TboxModel/C16/Arena.lean (everything else the API allows: callbacks calling any machine, calls addressed to a '
            'sub-machine, a machine object attached to several states, definition calls after start, any depth); on every case inside the tree '
            'fragment the driver runs both and flags a disagreement (M MODEL-MISMATCH)',
            'outside the tree fragment the ARENA theorems apply (per machine object, every program of calls on any machine + definition calls: '
            'balance, idle between calls, re-entrancy rejected, frame, first-match, guard evaluation order, order-once, fuel suffices); '
-           'refinement to the reference semantics (trace equality) is a theorem of the tree model only — for the arena it rests on the tie',
+           'refinement to the reference semantics (trace equality) is a theorem of the tree model and, for hierarchical stores (every machine attached at most once, '
+           'scripts addressing the own machine or an ancestor, calls addressed to the root), of the arena model (C16_arena_conforms); outside that predicate it rests on the tie',
+           'definition calls issued from callback bodies (script op d<i> = entry i of the case\'s table of definition calls, on any machine) are executed by the arena model '
+           '(dCall, ArenaDef.lean) and by the real API inside the real callbacks; the harness\'s state-changed closure works on copies of its captures because '
+           'setStateChangedCallback from inside the notification destroys the executing closure (the library itself touches nothing of it afterwards)',
            'attachment cycles (a machine reachable from itself) are refused by the protocol (start/stop/run terminate on them — C16_arena_fuel_suffices needs no acyclicity — but toJson recurses without bound); toJson is '
            'transcribed (lean/TboxModel/C16/Json.lean) and compared as a canonical P J line; it is a pure function of the store by construction (no theorem beyond that)']
 ASSUMPTIONS = ['std::function callbacks do not throw', 'state/event ids are C++ int: the protocol accepts exactly [-2147483648, 2147483647] (10 digits at most)',
@@ -35,14 +51,21 @@ RULE = ('cases = a generated hierarchy of 1..40 machines (depth <= 10, 1..5 stat
         'the snapshot) in between; boundary families: ids/events/targets/handler keys and returns/init ids at the ends of int and around '
         '-1/0 (state -1, user state 0, run 0, handler key 0), duplicate states, routes from/to undefined states, undefined init, machines '
         'with zero states as root and as sub-machine, a chain of 2000 (thorough: 10000) states walked by run, one state with 2000 (10000) '
-        'routes of which the last is eligible; non-trivial = the model run takes a transition inside a sub-machine (depth >= 1) '
+        'routes of which the last is eligible; definition calls from callbacks: a table of newState/addRoute/addEvent/setInitState/setSubStateMachine/'
+        'setStateChangedCallback calls performed by script ops on the own machine, ancestors, sub-machines, anybody; a systematic family of 896 cases = '
+        '{sub-machine, parent} x {enter/exit of both states, route action, guard, handler, notification} x {start, stop, restart, run(event in flight), 9 definition calls} x '
+        '{own machine, sub-machine, parent, unrelated machine}; one-event call-heavy hierarchies with init = terminal id; handler answers -2, -3, INT_MIN; non-trivial = the model run takes a transition inside a sub-machine (depth >= 1) '
         'and a run() returned true at least once; distinct = distinct op text')
 
 EVS = [0, 1, 1, 2, 2, 3, 4, 5]
+# family switches read by the generators below (set and reset by gen_family):
+#   evs: event ids used everywhere (one id = every run(e) made by a callback carries the event of the transition in flight),
+#   pcall: share of calls among script ops, ntpl: size of the table of definition calls (script op d<i>), init0: init = terminal id
+FAM = {'evs': None, 'pcall': 0.3, 'ntpl': 0, 'init0': 0.0}
 
 
 def g_event(rng):
-    e = str(rng.choice(EVS))
+    e = str(rng.choice(FAM['evs'] or EVS))
     if rng.random() < 0.15: e += ':%d' % rng.choice([1, 2, 7, 42])
     return e
 
@@ -62,12 +85,15 @@ def g_target(rng, node, mode, nmach):
     return ''
 
 
-def g_script(rng, node, mode, nmach, p_call=0.3):
-    if rng.random() < 0.5: return '.'
+def g_script(rng, node, mode, nmach, p_call=None):
+    if p_call is None: p_call = FAM['pcall']
+    if rng.random() < (0.5 if FAM['pcall'] <= 0.3 else 0.25): return '.'
     ops = []
     for _ in range(rng.choice([1, 1, 2, 3])):
         t = g_target(rng, node, mode, nmach)
-        if rng.random() < p_call:
+        if FAM['ntpl'] and rng.random() < 0.3:
+            ops.append('d%d' % rng.randrange(FAM['ntpl']) + t)
+        elif rng.random() < p_call:
             ops.append(rng.choice(['s', 'x', 'r', 'e' + g_event(rng), 'e' + g_event(rng)]) + t)
         else:
             ops.append('o' + t)
@@ -116,7 +142,7 @@ def emit_machine(rng, n, mode, nmach, lines, is_sub):
     if rng.random() < 0.05: lines.append('st %d . .' % ids[0])
     for sid in ids:
         for _ in range(rng.choice([0, 1, 2, 2, 3, 4])):
-            ev = rng.choice([0, 1, 1, 2, 2, 3, 4])
+            ev = rng.choice(FAM['evs'] + [0] if FAM['evs'] else [0, 1, 1, 2, 2, 3, 4])
             r = rng.random()
             if r < (0.3 if is_sub else 0.12): to = 0
             elif r < 0.95: to = rng.choice(ids)
@@ -127,12 +153,13 @@ def emit_machine(rng, n, mode, nmach, lines, is_sub):
         if rng.random() < 0.3:
             for _ in range(rng.choice([1, 1, 2])):
                 ev = rng.choice([0, 1, 2, 3])
-                ents = ['%d>%d' % (e, rng.choice(ids + [-1, -1, 0, 9, -2])) for e in rng.sample([1, 2, 3, 4], rng.choice([0, 1, 2]))]
-                ents.append('*>%d' % rng.choice([-1, -1, -1, rng.choice(ids), 0, -2]))
+                ents = ['%d>%d' % (e, rng.choice(ids + [-1, -1, 0, 9, -2, -3])) for e in rng.sample([1, 2, 3, 4], rng.choice([0, 1, 2]))]
+                ents.append('*>%d' % rng.choice([-1, -1, -1, rng.choice(ids), 0, -2, -2147483648]))
                 lines.append('ev %d %d %s %s' % (sid, ev, '|'.join(ents), g_script(rng, n, mode, nmach)))
     if rng.random() < 0.03: lines.append('ev 9 1 *>-1 .')
     r = rng.random()
-    if r < 0.25: lines.append('init %d' % rng.choice(ids))
+    if rng.random() < FAM['init0']: lines.append('init 0')
+    elif r < 0.25: lines.append('init %d' % rng.choice(ids))
     elif r < 0.28: lines.append('init 9')
     elif r < 0.30: lines.append('init -1')
     if rng.random() < 0.6: lines.append('cb %s' % g_script(rng, n, mode, nmach))
@@ -312,6 +339,76 @@ def gen_case(rng, depth, mode, p_sub=None):
     return lines + gen_calls(rng, rng.choice([6, 12, 20, 30]), mode, nmach)
 
 
+def g_tpl(rng, nmach, ntpl):
+    """the table of definition calls for a generated case: every kind, ids inside and outside the machines' ranges"""
+    node = Node(); node.idx = 0
+    out = []
+    for i in range(ntpl):
+        k = rng.choice(['st', 'rt', 'rt', 'ev', 'init', 'init', 'cb', 'cb', 'sub'])
+        sc = lambda: g_script(rng, node, 'any', nmach)
+        if k == 'st': out.append('tpl st %d %s %s' % (rng.choice([1, 2, 3, 8, 9, 0]), g_probe(rng, node, 'any', nmach), g_probe(rng, node, 'any', nmach)))
+        elif k == 'rt': out.append('tpl rt %d %d %d %s %s' % (rng.choice([1, 2, 3, 4, 8]), rng.choice((FAM['evs'] or [1, 2, 3]) + [0]), rng.choice([0, 1, 2, 3, 8, 9]),
+                                                              g_guard(rng, node, 'any', nmach), g_probe(rng, node, 'any', nmach, 0.5)))
+        elif k == 'ev': out.append('tpl ev %d %d %s %s' % (rng.choice([1, 2, 3, 8]), rng.choice([0, 1, 2]), '*>%d' % rng.choice([-1, -2, 1, 2, 3, 0]), sc()))
+        elif k == 'init': out.append('tpl init %d' % rng.choice([1, 2, 3, 4, 0, 8, 9, -1]))
+        elif k == 'cb': out.append('tpl cb %s' % sc())
+        else: out.append('tpl sub %d %d' % (rng.choice([1, 2, 3, 8]), rng.randrange(nmach)))
+    return out
+
+
+def gen_family(rng, fam, depth, mode):
+    """gen_case under a family switch: 'defcb' = callbacks issue definition calls (table + d<i> ops, on their own machine, ancestors,
+    sub-machines, anybody); 'inflight' = ONE event id everywhere, call-heavy scripts (run(e) with the event of the transition in
+    flight, restart()/stop()/start() at every point of a transition, from every kind of callback, on every relative), init = 0"""
+    old = dict(FAM)
+    try:
+        if fam == 'defcb': FAM.update(ntpl=rng.choice([3, 5, 8]), pcall=0.35)
+        else: FAM.update(evs=[rng.choice([1, 1, 2])], pcall=0.75, init0=0.25, ntpl=rng.choice([0, 0, 3]))
+        ntpl = FAM['ntpl']
+        counter, nodes = [0], []
+        root = build_tree(rng, depth, False, counter, nodes, 0.55 if fam == 'inflight' else None)
+        nmach = counter[0]
+        lines = []
+        for n in nodes:
+            emit_machine(rng, n, mode, nmach, lines, n is not root)
+        lines.append('go %d' % root.idx)
+        lines += gen_calls(rng, rng.choice([6, 12, 20]), mode, nmach)
+        return g_tpl(rng, nmach, ntpl) + lines
+    finally:
+        FAM.clear(); FAM.update(old)
+
+
+# every point of a transition x every call / definition call x every relative: parent P (machine 1: state 1 carries the sub-machine S =
+# machine 0; 1 -1-> 2 -1-> 1), S (1 -1-> 2 -1-> terminal), an unrelated machine U (machine 2); one event id (1) everywhere, so a run(1)
+# issued by a callback carries the event of the transition in flight
+POINT_TPL = ['tpl st 9 o o', 'tpl rt 1 1 2 - o', 'tpl init 2', 'tpl cb o', 'tpl sub 2 2', 'tpl ev 1 1 *>2 o', 'tpl cb o,d6,o', 'tpl rt 2 1 1 G1/o o', 'tpl init 0']
+POINT_OPS = ['s', 'x', 'r', 'e1', 'e1:7'] + ['d%d' % i for i in range(len(POINT_TPL))]
+POINTS = ['enter1', 'exit1', 'enter2', 'exit2', 'action', 'guard', 'handler', 'cb']
+
+
+def gen_point(who, point, op, tgt):
+    sc = 'o,%s%s,o%s' % (op, tgt, tgt)
+    def mach(k, extra):
+        P = {pt: '.' for pt in POINTS}
+        if k == who: P[point] = sc
+        l = ['mach', 'st 1 %s %s' % (P['enter1'], P['exit1']), 'st 2 %s %s' % (P['enter2'], P['exit2']),
+             'rt 1 1 2 %s %s' % ('G1/' + P['guard'] if (k == who and point == 'guard') else '-', P['action']),
+             'rt 2 1 %d - .' % (0 if k == 0 else 1)]
+        if k == who and point == 'handler': l.append('ev 1 1 *>-1 %s' % sc)
+        l.append('cb %s' % P['cb'])
+        return l + extra + ['end']
+    lines = list(POINT_TPL) + mach(0, []) + mach(1, ['sub 1 0']) + mach(2, []) + ['go 1']
+    return lines + ['start @2', 'start', 'run 1', 'run 1', 'run 1', 'run 1', 'restart', 'run 1', 'run 1', 'run 1', 'stop', 'json', 'start', 'run 1', 'run 1 @2', 'stop', 'stop @2', 'stop @0']
+
+
+def gen_points():
+    for who in (0, 1):
+        for point in POINTS:
+            for op in POINT_OPS:
+                for tgt in ('', '@0', '@1', '@2'):
+                    yield gen_point(who, point, op, tgt)
+
+
 DIRECTED = [
     # DESIGN §7 row 9 (patches/C16-01): stop() with a running sub-machine
     ['mach', 'st 1 . .', 'st 2 . .', 'rt 1 1 2 - .', 'end',
@@ -432,6 +529,10 @@ def gen(rng, tier):
         if r < 0.15: yield gen_case(rng, rng.choice([0, 1, 2, 3]), 'self')
         elif r < 0.60: yield gen_case(rng, rng.choice([1, 2, 2, 3, 3]), 'tree')
         else: yield gen_case(rng, rng.choice([1, 2, 2, 3]), 'any')
+    # definition calls from callbacks; one-event / call-heavy histories (lesson g); every point x every call x every relative
+    for c in gen_points(): yield c
+    for i in range(n // 4):
+        yield gen_family(rng, rng.choice(['defcb', 'defcb', 'inflight']), rng.choice([1, 2, 2, 3]), rng.choice(['tree', 'any', 'any']))
     # deep nesting (the tree model is instantiated at depth 8; the arena model has no limit)
     for i in range(n // 20 if tier == 'quick' else n // 8):
         yield gen_case(rng, rng.choice([4, 5, 6, 8, 10]), rng.choice(['tree', 'tree', 'any']), p_sub=0.6)
@@ -504,11 +605,13 @@ LEVEL_TEXT = ('Lean 4 theorems over a hand-written model of StateMachine::Impl (
               'selection, exit/action/enter/notify exactly once and in order per transition, enter/exit balance at every nesting level, '
               're-entrant calls on the own machine and on every ancestor rejected without state change; guard evaluations once each, in order, up to the first match; '
               'for the ARENA model (all machine objects in one store: callbacks calling any machine, shared sub-machines, direct calls, late definitions) per machine object and for '
-              'every program: balance, idle between calls, re-entrancy rejected, frame, first-match, guard order, order-once, fuel suffices; the models are tied to state_machine.cpp on every run by differential execution '
+              'every program: balance, idle between calls, re-entrancy rejected, frame, first-match, guard order, order-once, fuel suffices, and the same with definition calls '
+              'issued from callbacks (refused on running machines, so the routes vector of a find_if in flight is never modified; setInitState/setStateChangedCallback never refused: witnesses); '
+              'arena = reference semantics on hierarchical stores; every negative handler answer falls through to the route scan; the models are tied to state_machine.cpp on every run by differential execution '
               'of generated hierarchies (ASan+UBSan build of the working tree)')
 LEVEL_NOTE = ('trusted: Lean kernel, hand-written model + differential tie (coverage bounded by the generator, measured in evidence); callbacks '
               'calling machines other than their own or an ancestor, shared sub-machine objects, direct calls to sub-machines and late definition calls '
               'are covered by the arena theorems (balance / re-entrancy / frame per machine object, every program) and, for conformance to the '
-              'reference semantics, by the arena model + tie only; a machine object shared by two parents is outside the statement (witness theorem)')
+              'reference semantics, by C16_arena_conforms on hierarchical stores and by the arena model + tie beyond; a machine object shared by two parents is outside the statement (witness theorems)')
 TECHNIQUE = 'Lean 4 refinement proof (transcribed model -> reference semantics) + model/implementation correspondence check'
 DESIGN_REF = 'DESIGN.md §6 C16, §7 row 9'
